@@ -6,68 +6,6 @@ import NV.C09.TickLemmas
 
 namespace NV.C09
 
-theorem findIn_mapAll (g : Conn → Conn) (hg : ∀ c, (g c).id = c.id) : ∀ (l : List (Option Conn)) (id : Nat),
-    findIn (l.map (fun s => s.map g)) id = (findIn l id).map g := by
-  intro l id
-  induction l with
-  | nil => rfl
-  | cons x xs ih =>
-    cases x with
-    | none => rw [List.map_cons]; show findIn (none :: _) id = _; rw [findIn_none, findIn_none, ih]
-    | some c =>
-      rw [List.map_cons]
-      show findIn (some (g c) :: _) id = _
-      by_cases h : c.id = id
-      · rw [findIn_eq _ _ _ (by rw [hg]; exact h), findIn_eq _ _ _ h]; rfl
-      · rw [findIn_ne _ _ _ (by rw [hg]; exact h), findIn_ne _ _ _ h, ih]
-
-/-- granting HAS_CMD_TURN to every connection -/
-theorem mapAll_step (w : W) (g : Conn → Conn) (hg : ∀ c, (g c).id = c.id)
-    (hc : ∀ c, c.closing = true → (g c).closing = true) :
-    Step w { w with users := w.users.map (fun l => l.map (fun s => s.map g)) } := by
-  intro i
-  have hf : ∀ id, findConn { w with users := w.users.map (fun l => l.map (fun s => s.map g)) } id =
-      (findConn w id).map g := by
-    intro id
-    unfold findConn slots
-    cases h : w.users with
-    | none => rfl
-    | some l => exact findIn_mapAll g hg l id
-  have hu : ∀ l', (w.users.map (fun l => l.map (fun s => s.map g))) = some l' →
-      ∃ l, w.users = some l ∧ l'.length = l.length := by
-    intro l' h
-    cases hw : w.users with
-    | none => simp [hw] at h
-    | some l => simp [hw] at h; exact ⟨l, rfl, by rw [← h]; simp⟩
-  refine ⟨⟨i.crashed, i.inError, i.inMeh, ?_, i.inj, ?_, ?_, ?_, ?_⟩, ?_, fun _ _ _ _ _ h => h, ?_, rfl, rfl,
-    TrExt.of_eq rfl⟩
-  · intro o id ho
-    rw [hf]
-    have := i.live o id ho
-    cases h : findConn w id with
-    | none => simp [h] at this
-    | some c => rfl
-  · intro l' h
-    obtain ⟨l, hl, e⟩ := hu l' h
-    rw [e]; exact i.len l hl
-  · intro l' h
-    obtain ⟨l, hl, e⟩ := hu l' h
-    rw [e]; exact i.cur l hl
-  · intro h
-    apply i.cur0
-    cases hw : w.users with
-    | none => rfl
-    | some l => simp [hw] at h
-  · intro id hid
-    rw [hf, i.bound id hid]; rfl
-  · intro id c hcn hcl
-    rw [hf, hcn]
-    exact ⟨_, rfl, hc c hcl⟩
-  · show (w.users.map _).map List.length = _
-    cases hw : w.users with
-    | none => rfl
-    | some l => simp
-
 theorem applyAction_same (w : W) (a : Action) : Same w (applyAction w a).1 := by
   cases a with
   | tick dt => exact ⟨rfl, rfl, rfl, rfl, rfl, rfl, rfl, rfl, rfl, by trx⟩
